@@ -3,7 +3,8 @@ SPEC = {
     'theorems': ['EV.Index.C01_block', 'EV.Index.C01_count', 'EV.Index.C01_all_utxos', 'EV.Index.C01_init',
                  'EV.Index.sysIface', 'EV.Index.advanceTxs_spec', 'EV.Index.C01_flush',
                  'EV.Index.C01run_refinement', 'EV.Index.C01run_steps', 'EV.Index.C01run_observables',
-                 'EV.Index.C01run_end_to_end', 'EV.Index.C01run_resolve', 'EV.Index.C01run_file_readers'],
+                 'EV.Index.C01run_end_to_end', 'EV.Index.C01run_resolve', 'EV.Index.C01run_file_readers',
+                 'EV.SyncLoop.C01sync_told', 'EV.SyncLoop.C01sync_observables', 'EV.SyncLoop.C01sync_first_catchup_silent'],
     'claims': {'exclude_tags': ['after_backup', 'after_restart', 'window'], 'violation_tags': ['utxo']},
     'suites': ['index', 'sync'],
     'design_ref': 'DESIGN.md §6.0, §6 C01',
@@ -12,7 +13,7 @@ SPEC = {
         'widths: tx numbers < 2^40, values < 2^63, flush ids < 2^16 (beyond them struct.pack raises or truncates; not modelled)',
         'LevelDB batches are atomic and iteration is in key order; the model is tied to BlockProcessor/DB/History by differential execution on a real LevelDB, not by proof',
     ],
-    'level_text': 'proof: the transaction loop of advance_block is proved to compute the specification fold for every valid block over ANY store implementing the representation interface, and the real layout (cache + h/u rows with 4-byte prefix collisions + queued deletes, resolved through the tx-number files) is proved to implement it; the UTXO batch of a flush is proved to turn the rows into exactly the represented set; all_utxos on a flushed store is proved to return that set.  These layers are composed into one refinement theorem over whole runs (C01run_refinement / C01run_end_to_end): for EVERY sequence of block advances (any daemon heights) interleaved with history-only and full flushes on a valid chain, no operation fails, the invariant FullInv (UTXO representation + history invariant + file/tx-count layer + flush-state assertions) holds after every step, and after a full flush all_utxos, limited_history (every limit), utxo_count and tx_count equal the specification of the chain; the tx-number files are proved to resolve every tx number to the (hash, height) of the specification.  Back-outs and re-opens are covered by the C03/C04/C15 theorems per operation, not yet as operations of the whole-run theorem.  The index suite compares every table after every operation and every observable with the Lean specification at every fully flushed state.',
-    'level_note': 'server-level glue (fetch loop, flush policy under cache pressure, on_caught_up, reorg_chain, clean restarts) is not modelled in Lean: it is judged by suite sync on the real processing task against the Lean specification of the chain at every moment clients are told a height; trusted: Lean kernel + 3 standard axioms; the hand-written concrete model EV/Model/Index.lean corresponds to the code as far as suite index exercises it (real LevelDB, real block files); SHA-256 is not modelled (txid uniqueness is a hypothesis)',
+    'level_text': 'proof: the transaction loop of advance_block is proved to compute the specification fold for every valid block over ANY store implementing the representation interface, and the real layout (cache + h/u rows with 4-byte prefix collisions + queued deletes, resolved through the tx-number files) is proved to implement it; the UTXO batch of a flush is proved to turn the rows into exactly the represented set; all_utxos on a flushed store is proved to return that set.  These layers are composed into one refinement theorem over whole runs (C01run_refinement / C01run_end_to_end): for EVERY sequence of block advances (any daemon heights) interleaved with history-only and full flushes on a valid chain, no operation fails, the invariant FullInv (UTXO representation + history invariant + file/tx-count layer + flush-state assertions) holds after every step, and after a full flush all_utxos, limited_history (every limit), utxo_count and tx_count equal the specification of the chain; the tx-number files are proved to resolve every tx number to the (hash, height) of the specification.  Server level (EV.SyncLoop, C01sync_told / C01sync_observables): for every batching of the blocks, every placement of history-only / full flushes requested by the cache-size loop and every placement of on_caught_up calls, the processing loop never fails and at every moment clients are told a height the index is fully flushed and all_utxos / limited_history / counts equal the specification of the chain up to exactly that height; the event trace of the real task is replayed on this model by suite sync.  Back-outs and restarts are operations of the whole-run theorem of C03 (C03run_refinement).  The index suite compares every table after every operation and every observable with the Lean specification at every fully flushed state.',
+    'level_note': 'the forward part of the server glue (advance_blocks with forced flushes, on_caught_up) is modelled (EV.SyncLoop) and tied by trace replay; reorg_chain, the fetch loop and restarts are judged by suite sync on the real processing task against the Lean specification of the chain at every moment clients are told a height; trusted: Lean kernel + 3 standard axioms; the hand-written concrete model EV/Model/Index.lean corresponds to the code as far as suite index exercises it (real LevelDB, real block files); SHA-256 is not modelled (txid uniqueness is a hypothesis)',
     'technique': 'Lean 4 refinement proof (generic store interface + concrete instance) + differential correspondence',
 }
